@@ -576,11 +576,18 @@ impl InnerLocustDB {
             let mut builder = crate::mem_store::column_buffer::ColumnBuffer::default();
             for part in &data {
                 let span_load_columns = tracer.start_span("load_column");
-                let cols = part.get_cols(
+                let cols = match part.get_cols(
                     &[column.clone()].into(),
                     self.disk_read_scheduler(),
                     &query_perf_counter,
-                );
+                ) {
+                    Ok(cols) => cols,
+                    Err(err) => {
+                        // Leave the partitions as they are rather than merging without this column
+                        error!("Skipping compaction of {}: {}", table.name(), err);
+                        return (None, tracer);
+                    }
+                };
                 tracer.end_span(span_load_columns);
 
 
